@@ -42,6 +42,7 @@ int main(void)
 			obj = new dispatch;
 			D = (struct drv_rawdisp *) (void *) obj;
 			have = 1;
+			rc_on = 0;
 			nreg = 1; /* registration 0 is the fallback */
 			if (drv_w[2][0] == 'f') obj->set_error(handler, &regs[0]);
 			else if (drv_w[2][0] == 'n') obj->set_error(0, 0);
@@ -50,7 +51,11 @@ int main(void)
 			continue;
 		}
 		if (!have) { puts("bad-op"); continue; }
-		if (!strcmp(op, "set") && drv_nw == 3) {
+		if (!strcmp(op, "rc") && drv_nw == 3 && (!strcmp(drv_w[2], "on") || !strcmp(drv_w[2], "off"))) {
+			rc_on = drv_w[2][1] == 'n';
+			result("ok", "0", 0);
+		}
+		else if (!strcmp(op, "set") && drv_nw == 3) {
 			if (parse_id(drv_w[2], &id) || nreg >= MAXREG) { puts("bad-op"); continue; }
 			size_t r = nreg++;
 			result_verdict(obj->set_handler(id, handler, &regs[r]) ? 0 : -1);
@@ -82,14 +87,14 @@ int main(void)
 			result("ok", "0", 0);
 		}
 		else if (!strcmp(op, "emit") && drv_nw == 5 && !strcmp(drv_w[2], "id")) {
-			event ev;
+			event ev; EV_RC(ev);
 			if (parse_id(drv_w[3], &id) || parse_res(drv_w[4])) { puts("bad-op"); continue; }
 			ev.id = id;
 			int ret = mpt_dispatch_emit(obj, &ev);
 			result_ret(ret, ev.id);
 		}
 		else if (!strcmp(op, "emit") && drv_nw == 5 && (!strcmp(drv_w[2], "msg") || !strcmp(drv_w[2], "cmd"))) {
-			event ev;
+			event ev; EV_RC(ev);
 			uint8_t *dat; size_t dlen; int isnull;
 			if (parse_res(drv_w[4]) || drv_parse_data(drv_w[3], &dat, &dlen, &isnull)) { puts("bad-op"); continue; }
 			if (isnull) { free(dat); puts("bad-op"); continue; }
@@ -105,7 +110,7 @@ int main(void)
 			result_ret(mpt_dispatch_emit(obj, 0), 0);
 		}
 		else if (!strcmp(op, "hash") && drv_nw == 4) {
-			event ev;
+			event ev; EV_RC(ev);
 			uint8_t *dat; size_t dlen; int isnull;
 			if (parse_res(drv_w[3]) || drv_parse_data(drv_w[2], &dat, &dlen, &isnull)) { puts("bad-op"); continue; }
 			if (isnull) { free(dat); puts("bad-op"); continue; }
@@ -133,7 +138,9 @@ int main(void)
 				c->arg = &regs[r];
 				snprintf(v, sizeof(v), "ok fresh=%d", fresh);
 				snprintf(buf, sizeof(buf), "%" PRIuPTR, c->id);
+				new_reg = r;
 				result(v, buf, 0);
+				new_reg = (size_t) -1;
 			}
 		}
 		else if (!strcmp(op, "del") && drv_nw == 2) {
